@@ -142,6 +142,61 @@ def el_chrono(R, count, maxlen=40):
         yield ops
 
 
+_MINED = None
+
+
+def mined_constants():
+    """numeric literals of the code under test (read from the current source on every run): thresholds a piece of code
+    compares against are where its behaviour changes, so time offsets just below, at and just above them are generated"""
+    global _MINED
+    if _MINED is None:
+        import ast
+        import glob
+        from common import REPO
+        cs = set()
+        for f in glob.glob(os.path.join(REPO, "gradysim", "**", "*.py"), recursive=True):
+            try:
+                tree = ast.parse(open(f).read())
+            except Exception:  # noqa: BLE001
+                continue
+            for n in ast.walk(tree):
+                if isinstance(n, ast.Constant) and isinstance(n.value, (int, float)) and not isinstance(n.value, bool):
+                    v = abs(float(n.value))
+                    if 1e-3 <= v <= 1e7 and v not in (1.0, 2.0, 3.0):
+                        cs.add(v)
+        _MINED = sorted(cs)
+    return _MINED
+
+
+def el_mined(R, count, maxlen=14):
+    """histories whose time offsets sit around the numeric literals found in the source: every ordered pair (a, b) of
+    literals in the shape `far event at +a, near event at +b, advance to the near one, another event at +a, drain`, each
+    offset just below / at / just above the literal; then random histories over the same offsets"""
+    cs = (mined_constants() or [60.0])[:16]
+    fs = (0.99, 1.0, 1.01)
+    for a in cs:
+        for b in cs:
+            for f1 in fs:
+                for f2 in fs:
+                    for f3 in fs:
+                        yield concretise([("s", a * f1), ("s", b * f2), "pop", ("s", a * f3), "len", "pop", "pop", "pop"])
+    for _ in range(count):
+        pool = []
+        for c in R.sample(cs, min(len(cs), R.randint(1, 3))):
+            pool += [c * f for f in (0.5, 0.99, 1.0, 1.01, 1.5)]
+        ab = []
+        for _ in range(R.randint(5, maxlen)):
+            x = R.random()
+            if x < 0.55:
+                ab.append(("s", R.choice(pool) if R.random() < 0.75 else R.choice([0.0, 1.0, 0.5, 30.0])))
+            elif x < 0.92:
+                ab.append("pop")
+            else:
+                ab.append(R.choice(["peek", "len", "now"]))
+        ab += ["pop"] * 10
+        yield concretise(ab)
+
+
 def el_long(R, n_ops, burst=0):
     """one long history: optionally a burst of `burst` schedules into an empty queue, then a long
     alternation with a small queue and many ties"""
@@ -450,6 +505,7 @@ def check_C01(chk, R, S):
     run_sim_class(chk, "sim-decimal-ties", [gen_decimal_ties(R) for _ in range(max(60, S["sims"] // 5))], [M.mon_C01])
     run_sim_class(chk, "sim-external-requests", [gen_drive_scenario(R, ("settimer", "send", "bcast", "cancel")) for _ in range(max(60, S["sims"] // 5))], [M.mon_C01])
     run_el_class(chk, "el-chronological", el_chrono(R, max(200, S["el_rand"] // 4)))
+    run_el_class(chk, "el-around-source-constants", el_mined(R, max(300, S["el_rand"] // 4)))
     chk.exhaustive = True
 
 
@@ -465,6 +521,7 @@ def check_C02(chk, R, S):
             "acts": ["settimer", "cancel", "send", "bcast", "flag", "goto"]}
     run_sim_class(chk, "sim-exhaustion", gen_many(R, S["sims"], prof), [M.mon_C02])
     run_el_class(chk, "el-chronological", el_chrono(R, max(200, S["el_rand"] // 4)))
+    run_el_class(chk, "el-around-source-constants", el_mined(R, max(300, S["el_rand"] // 4)))
     chk.exhaustive = True
 
 
@@ -480,6 +537,7 @@ def check_C03(chk, R, S):
     run_sim_class(chk, "sim-timer-rearm", [gen_rearm(R) for _ in range(S["sims"])], [M.mon_C03])
     run_sim_class(chk, "sim-decimal-ties", [gen_decimal_ties(R) for _ in range(max(60, S["sims"] // 5))], [M.mon_C03])
     run_el_class(chk, "el-chronological", el_chrono(R, max(200, S["el_rand"] // 4)))
+    run_el_class(chk, "el-around-source-constants", el_mined(R, max(300, S["el_rand"] // 4)))
     chk.exhaustive = True
 
 
@@ -561,6 +619,25 @@ def gen_many_nodes(R, rng=None, mob=True):
     return {"handlers": R.sample(hs, len(hs)), "nodes": nodes, "med": (rng if rng is not None else R.choice([5.0, 8.0, 1000.0]), R.choice([0.0, 0.25]), 0.0),
             "mob": (R.choice([0.5, 1.0]), 3.0, (0.0, 0.0, 0.0)), "asserts": [], "seed": R.randrange(1 << 30),
             "dur": R.choice([2.0, 2.5, 3.0]), "maxit": None, "drv": ("run",), "script": script}
+
+
+def gen_many_names(R):
+    """scale in the number of timer NAMES (35-90 per node): a protocol that puts a job number into the name of each timer"""
+    nn = R.randint(1, 2)
+    script = []
+    for me in range(nn):
+        N = R.randint(35, 90)
+        batch = R.choice([N, 10, 17])
+        rules = [{"trig": ("init",), "nth": None, "acts": [("settimer", 100 + k, "abs", 0.5 + 0.25 * (k % 9)) for k in range(min(batch, N))]
+                  + [("cancel", 100 + k) for k in R.sample(range(min(batch, N)), 3)]}]
+        # the rest of the names are used one after the other, each from the handler of an earlier one
+        for k in range(batch, N):
+            rules.append({"trig": ("timer", 100 + k - batch), "nth": None, "acts": [("settimer", 100 + k, "rel", R.choice([0.25, 0.5, 1.0]))]
+                          + ([("cancel", 100 + R.randrange(k))] if R.random() < 0.15 else [])})
+        script.append(rules)
+    return {"handlers": ["T"], "nodes": [{"pos": (float(i), 0.0, 0.0), "ty": 0} for i in range(nn)],
+            "med": (1000.0, 0.0, 0.0), "mob": (1.0, 1.0, (0.0, 0.0, 0.0)), "asserts": [], "seed": R.randrange(1 << 30),
+            "dur": None, "maxit": None, "drv": ("run",), "script": script}
 
 
 def gen_burst(R):
@@ -866,6 +943,7 @@ def check_C07(chk, R, S):
     run_sim_class(chk, "sim-decimal-ties", [gen_decimal_ties(R) for _ in range(max(60, S["sims"] // 5))], [M.mon_C07])
     run_sim_class(chk, "sim-external-requests", [gen_drive_scenario(R) for _ in range(max(100, S["sims"] // 2))], [M.mon_C07])
     run_sim_class(chk, "sim-watchdog", [gen_watchdog(R) for _ in range(max(100, S["sims"] // 2))], [M.mon_C07])
+    run_sim_class(chk, "sim-many-timer-names", [gen_many_names(R) for _ in range(max(12, S["sims"] // 20))], [M.mon_C07])
 
 
 def check_C08(chk, R, S):
